@@ -67,6 +67,7 @@ def _post_hht(M, mode):
         f, a, e = c.ghost['in']
         calls = c.ghost.get('coo', [])
         c.oblige('post:one-coo_matrix-call', z3.BoolVal(len(calls) == 1), 'post')
+        c.oblige('post:no-write-reached-the-callers-arrays', z3.BoolVal(c.ghost.get('frame_writes', 0) == 0), 'post')
         if len(calls) != 1:
             return
         st = calls[0]
@@ -133,6 +134,7 @@ def _post_1d(M, mode):
     def post(c, args, kw, ret):
         f, a, e = c.ghost['in']
         c.oblige('post:shape', z3.And(ret.shape_e[0] == NE - 1, ret.shape_e[1] == M), 'post')
+        c.oblige('post:no-write-reached-the-callers-arrays', z3.BoolVal(c.ghost.get('frame_writes', 0) == 0), 'post')
         # the digitised, NaN-masked frequencies the code used: recomputed with the same (deterministic) shim calls
         with core.SpecMode():
             outside = (f < e[0]) + (f > e[-1])
@@ -186,11 +188,13 @@ def units(tier):
                      ns={'sparse': SparseShim}, inline=inl, observables=obs)
             u.bound_scalars = [('T', 0), ('NE', 1)]
             u.meta = {'M': M, 'mode': mode}
+            u.frame = True          # no write may reach the caller's frequency / amplitude / edge arrays (a later call sees them)
             U.append(u)
             if M <= 2:
                 u = Unit('hilberthuang_1d[M=%d,%s]' % (M, mode), 'emd/spectra.py', 'hilberthuang_1d', _mk_1d(M, mode), _post_1d(M, mode), module=ES,
                          loops=_loops_1d(M, mode), observables=obs)
                 u.meta = {'M': M, 'mode': mode}
+                u.frame = True
                 U.append(u)
     U.append(Unit('define_hist_bins[linear]', 'emd/spectra.py', 'define_hist_bins', _mk_bins, _post_bins, module=ES))
     return U
